@@ -10,14 +10,141 @@ C20 line-protocol driver.
 mutations contribute nothing) of a prefix `p` of the issued mutations with `acked ≤ p ≤ issued`.
 Model prediction (when `w`, the number of completed WAL frame writes, is known): replay of the first `w`
 logged mutations.
+
+Runs with concurrent callers (2–4 goroutines calling the store at the same time) are event streams, in
+the order the kernel completed the events:
+`cplan …` (the callers' programs; for replay only) · `cnolog` (SIGKILL run: WAL writes are not observed) ·
+`cissue t <mutation>` (caller `t` is about to call) · `cwal <mutation>` (a frame `write(2)` to the tail segment
+completed, decoded) · `cack t => result` · `ccrash keys tag => recovered|error|panic` (image of the process
+stopped at this point of the stream, reopened by the real `aof.New`).
+Oracle (property statement; uses only issue/ack events, never the log or the results): reopening succeeds
+and the recovered state is `specStep` folded (rejected mutations contribute nothing) over SOME sequence of
+issued mutations that contains every acknowledged one and in which a mutation acknowledged before another
+was issued comes first. `OConf` = one such sequence so far (its state + which outstanding calls it already
+contains); all of them are kept.
+Model: the observer of `Model.lean` (`obsIssue/obsWal/obsAck/obsRecover`): results, logged frames and the
+recovered state must be explained by the single writer loop receiving the requests in some order.
 -/
 namespace Specter.C20
 open Specter.Util Specter.Aof Specter.Aof.Proto
 
+/-! canonical memory (absent = empty entry; children are a set; key order is immaterial) -/
+
+def bytesLt : Bytes → Bytes → Bool
+  | [], [] => false
+  | [], _ :: _ => true
+  | _ :: _, [] => false
+  | a :: as, b :: bs => a < b || (a == b && bytesLt as bs)
+
+def insertBy {α : Type} (lt : α → α → Bool) (x : α) : List α → List α
+  | [] => [x]
+  | y :: ys => if lt y x then y :: insertBy lt x ys else x :: y :: ys
+
+def sortBy {α : Type} (lt : α → α → Bool) (xs : List α) : List α := xs.foldl (fun acc x => insertBy lt x acc) []
+
+def canonMem (m : Mem) : Mem :=
+  sortBy (fun a b => bytesLt a.1 b.1)
+    ((m.filter (fun p => p.2 ≠ {})).map (fun p => (p.1, { p.2 with children := sortBy bytesLt p.2.children })))
+
+/-- one admissible sequence of issued mutations: its reference state and the outstanding calls it contains -/
+structure OConf where
+  mem : Mem := Mem.empty
+  lin : List Nat := []          -- sorted
+deriving DecidableEq, Inhabited
+
+def dedupO (cs : List OConf) : List OConf :=
+  cs.foldl (fun acc c => if acc.contains c then acc else acc ++ [c]) []
+
+/-- extend by one outstanding call that the sequence does not contain yet -/
+def OConf.extend (pend : List Req) (c : OConf) : List OConf :=
+  pend.filterMap fun r =>
+    if c.lin.contains r.1 then none
+    else some { mem := canonMem (specStep c.mem r.2), lin := insertBy (fun a b => a < b) r.1 c.lin }
+
+/-- all sequences obtained by appending outstanding calls, in every order -/
+def closeO (pend : List Req) : Nat → List OConf → List OConf
+  | 0, cs => cs
+  | fuel + 1, cs =>
+    let cs' := dedupO (cs ++ cs.flatMap (OConf.extend pend))
+    if cs'.length = cs.length then cs else closeO pend fuel cs'
+
+structure CSt where
+  pend : List Req := []                 -- outstanding calls (issued, not acknowledged)
+  oconfs : List OConf := [{}]
+  mconfs : List CConf := [{}]
+  modelOn : Bool := true
+  issued : Nat := 0
+  acked : Nat := 0
+deriving Inhabited
+
 structure St where
   store : Store := {}
   mems : Array Mem := #[Mem.empty]     -- reference state after every prefix of the history
+  c : CSt := {}
 deriving Inhabited
+
+def parseRes (s : String) : Option (Option Err) :=
+  if s = "ok" then some none else if s = "conflict" then some (some .conflict)
+  else if s = "panic" then some (some .panic) else none
+
+def renderReq (r : Req) : String := s!"{r.1}:{repr r.2.type}/{renderBytes r.2.key}/{renderBytes r.2.value}"
+
+def stepC (st : St) (toks : List String) (rhs : String) : Option (St × Verdict) :=
+  let c := st.c
+  match toks with
+  | "cplan" :: _ => some (st, .ok)
+  | ["cnolog"] => some ({ st with c := { c with modelOn := false } }, .ok)
+  | "cissue" :: t :: mt =>
+    match t.toNat?, parseMutation mt with
+    | some t, some mu =>
+      if ¬ mu.WF then some (st, .bad "ill-formed import") else
+      if c.pend.any (·.1 = t) then some (st, .bad "caller already has an outstanding call") else
+      let pend := c.pend ++ [(t, mu)]
+      let oconfs := closeO pend (pend.length + 1) c.oconfs
+      if oconfs.length > 20000 then some (st, .bad "oracle: too many admissible sequences") else
+      some ({ st with c := { c with pend := pend, oconfs := oconfs, issued := c.issued + 1,
+                                    mconfs := if c.modelOn then obsIssue pend c.mconfs else c.mconfs } }, .ok)
+    | _, _ => some (st, .bad "cissue args")
+  | "cwal" :: mt =>
+    match parseMutation mt with
+    | none => some ({ st with c := { c with mconfs := [] } }, .diff "model: every logged frame is a well-formed issued mutation")
+    | some mu =>
+      if ¬ c.modelOn then some (st, .bad "cwal in a run without log observation") else
+      let m' := obsWal c.pend mu c.mconfs
+      some ({ st with c := { c with mconfs := m' } },
+        if m'.isEmpty then .diff "model: no outstanding request can be appended here (not issued, already logged, or the writer rejects it before logging)"
+        else .ok)
+  | ["cack", t] =>
+    match t.toNat? with
+    | some t =>
+      if ¬ c.pend.any (·.1 = t) then some (st, .bad "ack without outstanding call") else
+      let oconfs := dedupO ((c.oconfs.filter (·.lin.contains t)).map fun o => { o with lin := o.lin.filter (· ≠ t) })
+      -- a result the writer-loop model never produces (log-error, closed, …) has no explanation
+      let m' := if c.modelOn then (match parseRes rhs with | some res => obsAck t res c.mconfs | none => []) else c.mconfs
+      some ({ st with c := { c with pend := c.pend.filter (·.1 ≠ t), oconfs := oconfs, mconfs := m', acked := c.acked + 1 } },
+        if c.modelOn ∧ m'.isEmpty then
+          .diff ("model: " ++ (match c.mconfs with
+            | [] => "no explanation left"
+            | m :: _ => s!"the writer loop cannot answer {rhs} to caller {t} here; log has {m.store.log.length} entries"))
+        else .ok)
+    | none => some (st, .bad "cack args")
+  | ["ccrash", ks, _tag] =>
+    match parseList ks with
+    | none => some (st, .bad "ccrash keys")
+    | some keys =>
+      let admissible := (c.oconfs.map (fun o => renderMem keys o.mem)).eraseDups
+      let ctx := s!"issued={c.issued} acknowledged={c.acked} outstanding=[{", ".intercalate (c.pend.map renderReq)}]"
+      if rhs = "error" ∨ rhs = "panic" then
+        some (st, .spec s!"reopening the crash image failed ({rhs}): aof.New must succeed at every crash point; {ctx}; admissible={admissible}")
+      else if ¬ admissible.contains rhs then
+        some (st, .spec s!"recovered state is not the result of any sequence of issued mutations containing every acknowledged one; {ctx}; admissible={admissible}")
+      else if ¬ c.modelOn then some (st, .ok)
+      else
+        let preds := ((obsRecover c.mconfs).map fun
+          | .ok s' => renderMem keys s'.mem
+          | .error _ => "error").eraseDups
+        some (st, if preds.contains rhs then .ok else .diff (match preds with | [] => "no-explanation" | p :: _ => p))
+  | _ => none
 
 def step (st : St) (toks : List String) (rhs : String) : St × Verdict :=
   match toks with
@@ -47,6 +174,9 @@ def step (st : St) (toks : List String) (rhs : String) : St × Verdict :=
           (st, if m = rhs then .ok else .diff m)
     | _, _, _ => (st, .bad "crash args")
   | _ =>
+    match stepC st toks rhs with
+    | some r => r
+    | none =>
     match parseMutation toks with
     | none => (st, .bad "unknown op")
     | some mu =>
